@@ -84,6 +84,8 @@ func (b *proxyIDRingBuffer) Append(proxyID int64, sourceShard history.ClusterSha
 			}
 		}
 	}
+	// Hole filling above may have used up the last free slot.
+	b.ensureCapacity()
 	pos := (b.head + b.size) % len(b.entries)
 	b.entries[pos] = proxyIDMapping{sourceShard: sourceShard, sourceTask: sourceTask}
 	b.size++
